@@ -29,8 +29,13 @@ DTYPE = {'int': np.int64, 'float': np.float64, 'bool': np.bool_}
 BINOPS = {'add': operator.add, 'sub': operator.sub, 'mul': operator.mul, 'div': operator.truediv,
           'floordiv': operator.floordiv, 'mod': operator.mod, 'pow': operator.pow}
 UNOPS = {'neg': operator.neg, 'abs': operator.abs, 'pos': operator.pos}
+# in-place forms: `a op= b` (Python rebinds a to whatever the method returns)
+IOPS = {'iadd': operator.iadd, 'isub': operator.isub, 'imul': operator.imul, 'idiv': operator.itruediv,
+        'ifloordiv': operator.ifloordiv, 'imod': operator.imod}
+DIRECT = {'iadd': 'add', 'isub': 'sub', 'imul': 'mul', 'idiv': 'div', 'ifloordiv': 'floordiv', 'imod': 'mod'}
 MATHFN = ['sin', 'cos', 'tan', 'arcsin', 'arccos', 'arctan', 'sqrt', 'log', 'exp', 'sign']
-EXACT = {'add': 8, 'sub': 8, 'mul': 64, 'floordiv': 1, 'mod': 8, 'neg': 8, 'abs': 8, 'pos': 8}   # result scale
+EXACT = {'add': 8, 'sub': 8, 'mul': 64, 'floordiv': 1, 'mod': 8, 'neg': 8, 'abs': 8, 'pos': 8,   # result scale
+         'iadd': 8, 'isub': 8, 'imul': 64, 'ifloordiv': 1, 'imod': 8}
 
 
 def prod(s):
@@ -72,6 +77,63 @@ def mask_bits(m, shape):
     return [bool(x) for x in m]
 
 
+def layout_array(a, layout):
+    """the same values in another memory layout: Fortran order, or a strided (non-contiguous) view of a larger buffer"""
+    if not isinstance(a, np.ndarray) or a.ndim == 0:
+        return a
+    if layout == 'F' and a.ndim >= 2:
+        return np.asfortranarray(a)
+    if layout == 'strided' and a.shape[0] > 0:
+        big = np.zeros((a.shape[0] * 2,) + a.shape[1:], dtype=a.dtype)
+        big[::2] = a
+        return big[::2]
+    if layout == 'rev' and a.shape[-1] > 0:
+        return np.ascontiguousarray(a[..., ::-1])[..., ::-1]
+    return a
+
+
+WARM = {
+    'wod': lambda y: y.wod, 'antimask': lambda y: y.antimask, 'sq': lambda y: y * y, 'abs': lambda y: abs(y),
+    'neg': lambda y: -y, 'half': lambda y: y / 2., 'mask': lambda y: y.mask, 'recip': lambda y: 1. / y,
+}
+
+
+def touch(y, codes):
+    for c in codes:
+        try:
+            WARM[c](y)
+        except Exception:
+            pass
+
+
+def build_qube(o, a):
+    cls = CLASSES[o['cls']]
+    return cls(a, mk_mask(o.get('mask', 'F'), o['shape']), drank=len(o.get('denom', [])), units=mk_units(o.get('units')))
+
+
+def with_history(o, prov):
+    """an object with the SAME values, mask, units and class as the plain construction, but with a history: built from a
+    base object that carries a derivative and warm caches, through one of the number fast paths"""
+    a = raw_array(o)
+    c = prov['c']
+    via = prov['via']
+    base = {'add': lambda: a - c, 'radd': lambda: a - c, 'sub': lambda: a + c, 'mul': lambda: a / c if o['kind'] == 'float' else a // c,
+            'rmul': lambda: a / c if o['kind'] == 'float' else a // c}[via]()
+    base = layout_array(np.asarray(base).astype(a.dtype), o.get('layout'))
+    if base.ndim == 0:
+        base = base[()].item()
+    y0 = build_qube(o, base)
+    if prov.get('derivs') and CLASSES[o['cls']].DERIVS_OK and not o.get('denom'):
+        # d/dt of the object: same item shape and units; the derivative of a rotation matrix is a plain Matrix
+        dcls = Matrix if o['cls'] == 'Matrix3' else CLASSES[o['cls']]
+        d = dcls(np.ones(full_shape(o)) if full_shape(o) else 1., units=mk_units(o.get('units')) if dcls.UNITS_OK else None)
+        y0.insert_deriv('t', d)
+    touch(y0, prov.get('warm', []))
+    y = {'add': lambda: y0 + c, 'radd': lambda: c + y0, 'sub': lambda: y0 - c, 'mul': lambda: y0 * c, 'rmul': lambda: c * y0}[via]()
+    touch(y, prov.get('post', []))
+    return y
+
+
 def build(o):
     src = o['src']
     if src == 'num':
@@ -80,6 +142,7 @@ def build(o):
     a = raw_array(o)
     if src == 'npnum':
         return a[()]                  # a NumPy scalar (np.int64 / np.float64): registered as numbers.Real
+    a = layout_array(np.asarray(a), o.get('layout'))
     if src == 'nd':
         return np.asarray(a)          # a 0-d ndarray stays an ndarray
     if src == 'ma':
@@ -87,8 +150,31 @@ def build(o):
         return np.ma.MaskedArray(a, mask=m)
     if src == 'list':
         return a.tolist()
-    cls = CLASSES[o['cls']]
-    return cls(a, mk_mask(o.get('mask', 'F'), o['shape']), drank=len(o.get('denom', [])), units=mk_units(o.get('units')))
+    if o.get('prov'):
+        return with_history(o, o['prov'])
+    return build_qube(o, a)
+
+
+PRE = {
+    'a.wod': lambda a, b: a.wod, 'b.wod': lambda a, b: b.wod, 'a*a': lambda a, b: a * a, 'b*b': lambda a, b: b * b,
+    'a+b': lambda a, b: a + b, 'a*b': lambda a, b: a * b, 'b*a': lambda a, b: b * a, 'a-b': lambda a, b: a - b,
+    'a/b': lambda a, b: a / b, 'a%b': lambda a, b: a % b, 'a//b': lambda a, b: a // b, '-a': lambda a, b: -a,
+    '-b': lambda a, b: -b, 'a*2': lambda a, b: a * 2, 'b+1': lambda a, b: b + 1, 'a+1': lambda a, b: a + 1,
+    'a.antimask': lambda a, b: a.antimask, 'b.antimask': lambda a, b: b.antimask, 'abs(a)': lambda a, b: abs(a),
+    'b/2': lambda a, b: b / 2., 'a==b': lambda a, b: a == b,
+}
+
+
+def operands(case):
+    """build the operands of a case and replay the recorded earlier operations on the same objects"""
+    a = build(case['a'])
+    b = build(case['b']) if case.get('b') is not None else None
+    for code in case.get('pre', []):
+        try:
+            PRE[code](a, b)
+        except Exception:
+            pass
+    return a, b
 
 
 def run(case):
@@ -97,13 +183,21 @@ def run(case):
     with warnings.catch_warnings():
         warnings.simplefilter('error')
         if op in BINOPS:
-            return BINOPS[op](build(case['a']), build(case['b']))
+            a, b = operands(case)
+            return BINOPS[op](a, b)
+        if op in IOPS:
+            a, b = operands(case)
+            r = IOPS[op](a, b)
+            if isinstance(r, Qube):
+                r._c04_same_ = r is a          # the target object itself must come back
+            return r
         if op in UNOPS:
-            return UNOPS[op](build(case['a']))
+            return UNOPS[op](operands(case)[0])
         if op == 'arctan2':
-            return build(case['a']).arctan2(build(case['b']))
+            a, b = operands(case)
+            return a.arctan2(b)
         if op in MATHFN:
-            return getattr(build(case['a']), op)()
+            return getattr(operands(case)[0], op)()
         if op == 'bshape':
             return Qube.broadcasted_shape(tuple(case['a']['shape']), tuple(case['b']['shape']))
     raise KeyError(op)
@@ -128,6 +222,11 @@ def expanded_mask(q):
 
 def blank_for(case):
     """positions (over the expected leading shape) that are not compared: masked in an operand / zero divisor"""
+    if case['op'] in IOPS:
+        # the in-place form blanks what the direct form blanks, also where the reference rejects the in-place form
+        d = dict(case, op=DIRECT[case['op']])
+        d.pop('_ref', None)
+        return blank_for(d)
     ref = reference(case)
     if ref is not None and ref[0] == 'ok' and ref[1].get('blank') is not None:
         return [bool(x) for x in ref[1]['blank']]
@@ -270,6 +369,8 @@ def py_floordiv(x, y):
 
 
 def reference(case):
+    if case['op'] in IOPS:
+        return ref_inplace(case)
     r = reference0(case)
     if r is not None and r[0] == 'ok' and 'blank' in r[1] and all(r[1]['blank']) and \
             (case['op'] in ('pow', 'arctan2') or case['op'] in MATHFN):
@@ -320,6 +421,35 @@ def reference0(case):
     except Reject as e:
         return ('reject', str(e))
     return None
+
+
+def ref_inplace(case):
+    """`a op= b`: what the direct form `a op b` gives, provided it can be stored in the target: the operand broadcasts INTO
+    the target's leading shape, item shape and class stay the target's, an integer target cannot take a float result"""
+    a = case['a']
+    if a['src'] != 'qube':
+        return None
+    d = dict(case, op=DIRECT[case['op']])
+    d.pop('_ref', None)
+    ref = reference(d)
+    if ref is None or ref[0] == 'reject':
+        return ref
+    r = dict(ref[1])
+    A = norm_qube(a)
+    if list(r['lead']) != list(A.lead):
+        return ('reject', 'the operand does not broadcast into the target (leading shape %s -> %s)' % (A.lead, r['lead']))
+    if list(r['numer']) != list(A.numer) or list(r['denom']) != list(A.denom):
+        return ('reject', 'the item shape of the target would change')
+    if A.cls == 'Boolean':
+        return ('reject', 'a Boolean target cannot hold the integer result')
+    if A.kind == 'int' and r['kind'] == 'float':
+        return ('reject', 'integer target, non-integer result')
+    if A.kind == 'int' and r['kind'] is None and case['op'] == 'idiv':
+        return ('reject', 'integer target, non-integer result')
+    r['cls'] = A.cls
+    if r['kind'] is not None:
+        r['kind'] = A.kind if A.kind == 'float' else r['kind']
+    return ('ok', r)
 
 
 def scalarised(N):
